@@ -552,6 +552,7 @@ theorem emit_magic (args : List Arg) : emitArgs sl true args = emitArgs sl false
 
 theorem toMypy_clearPO (s : PySig) (h : s.po = []) :
     (s.toMypyE el).map clearPO = s.toMypyE (fun _ => false) := by
-  simp [PySig.toMypyE, h, mkArgE, mkVArgE, clearPO, Function.comp_def]
+  simp only [PySig.toMypyE, h, List.map_nil, List.nil_append, List.map_append, List.map_map]
+  rfl
 
 end StubSig
